@@ -16,10 +16,18 @@ def load_claimed():
 
 
 CLAIMED = load_claimed()
-HOOK_COMMITS = [
-    "eb8946f verif hooks: process-wide event sink (src/verif_hooks.rs), compiled only with --cfg gold_lsp_verif",
-    "46f7073 verif hooks: trace events in threadpool.rs, only with --cfg gold_lsp_verif",
-]
+def hook_commits():
+    """the guarded instrumentation commits of /repo (message starts with `verif hook`)"""
+    import subprocess
+    try:
+        o = subprocess.run(["git", "-C", "/repo", "log", "--reverse", "--format=%h %s", "--grep=^verif hook"],
+                           capture_output=True, text=True).stdout
+        return [l[:200] for l in o.splitlines() if l.strip()]
+    except Exception:
+        return []
+
+
+HOOK_COMMITS = hook_commits()
 
 PENDING_REASON = "not claimed yet: model and theorems for this property are still being built in this round (see DESIGN.md §7 build order); no check is registered until its evidence is real"
 
